@@ -18,15 +18,17 @@ Theorem C04_key_order :
 Proof. exact exec_sel_keys. Qed.
 Print Assumptions C04_key_order.
 
-(* ... and that grouping order is document order: on selections without
-   named-fragment spreads the groups are the specification's CollectFields,
-   whose keys come at their first occurrence in the flattened selection. *)
+(* ... and that grouping order is document order: on selections whose
+   named-fragment spreads are at the top level (none inside a fragment or an
+   inline fragment; in particular selections without spreads) the groups are
+   the specification's CollectFields, whose keys come at their first
+   occurrence in the flattened selection. *)
 Theorem C04_keys_first_occurrence :
   forall sch frags vs cfuel tname sels g,
-    spread_free sels = true ->
+    top_spreads frags sels = true ->
     collect_for sch frags vs cfuel tname sels = Ok g ->
-    exists fs, SFlat (applies sch tname) frags vs sels [] fs [] /\
-               g = spec_groups fs /\ keys g = first_occ (map field_key fs).
+    exists fs V', SFlat (applies sch tname) frags vs sels [] fs V' /\
+                  g = spec_groups fs /\ keys g = first_occ (map field_key fs).
 Proof. exact collect_keys_first_occurrence. Qed.
 Print Assumptions C04_keys_first_occurrence.
 
@@ -118,24 +120,26 @@ Theorem C04_history :
 Proof. exact execute_history_free. Qed.
 Print Assumptions C04_history.
 
-(* CollectFields: on selections without named-fragment spreads (inline
-   fragments with and without type conditions, @skip/@include, aliases,
-   merges) the code's grouping IS the specification's. Full statement:
-   C04_collect_full (Proofs/ExecTopProofs.v); missing: selections with
-   named-fragment spreads, where the seen-set quirk may list a node twice. *)
+(* CollectFields: on selections whose named-fragment spreads are at the top
+   level, of fragments without spreads of their own (plus inline fragments
+   with and without type conditions, @skip/@include, aliases, merges, the
+   same fragment spread several times) the code's grouping IS the
+   specification's. Full statement: C04_collect_full
+   (Proofs/ExecTopProofs.v); missing: spreads nested inside fragments or inline
+   fragments, where the seen-set quirk may list a node twice. *)
 Theorem C04_collect_partial :
   forall applies frags vs mc fuel ss g,
-    spread_free ss = true ->
+    top_spreads frags ss = true ->
     collect applies frags vs mc fuel ss = Ok g ->
     SCollect applies frags vs ss g.
-Proof. exact collect_is_spec_collect. Qed.
+Proof. exact collect_is_spec_collect_top. Qed.
 Print Assumptions C04_collect_partial.
 
 (* The result is one the specification's ExecuteSelectionSet / ExecuteField /
    CompleteValue allow, with the grouping at each level the code's
    collect_fields -- which is the specification's CollectFields at every level
-   whose selections contain no named-fragment spread. Full statement:
-   C04_exec_eq_spec_full. *)
+   whose named-fragment spreads are at the top level (top_spreads). Full
+   statement: C04_exec_eq_spec_full. *)
 Theorem C04_exec_eq_spec_partial :
   forall sch frags vs coerce_args world tyres cfuel fuel tname v p sels r,
     exec_sel sch frags vs coerce_args world tyres cfuel fuel tname v p sels = Ok r ->
@@ -182,7 +186,7 @@ Example C04_example_locality :
   schema_nn_ok ex_schema /\
   (forall p', prefixb [PKey (ex_s "t"); PKey (ex_s "s")] p' = false ->
               forall a b c d, ex_world true p' a b c d = ex_world false p' a b c d) /\
-  (exists r, ex_run false = Ok r) /\ spread_free ex_sels = true.
+  (exists r, ex_run false = Ok r) /\ top_spreads [] ex_sels = true.
 Proof.
   split; [|split; [|split]].
   - intros tn fs ifs f Hg Hi. unfold get_type in Hg. simpl in Hg.
